@@ -47,6 +47,14 @@ type SchedPlan struct {
 	// edit has been written but is not yet durable while foreground operations
 	// (commits, WAL rotations, reader closes, obsolete-file passes) continue.
 	HoldManifest int `json:"holdman,omitempty"`
+	// HoldCreate ("sst", "blob", "any") with HoldCreateK > 0: a background job
+	// (flush, compaction, blob-file rewrite) that has just created an output
+	// file of that class is held back the same way for HoldCreateK foreground
+	// steps: its inputs are chosen, nothing is installed yet, and the foreground
+	// goes on (excises, ingestions, flushes, reader churn) - the cancellation
+	// and conflict paths of the jobs. At most 8 such holds per case.
+	HoldCreate  string `json:"holdcreate,omitempty"`
+	HoldCreateK int    `json:"holdcreatek,omitempty"`
 }
 
 type schedFS struct {
@@ -56,7 +64,8 @@ type schedFS struct {
 	stepNow func() int64
 	trace   func(format string, args ...interface{})
 	holds   atomic.Int64
-	holding atomic.Int64 // goroutines currently parked in a MANIFEST-sync hold
+	holding atomic.Int64 // goroutines currently parked in a hold
+	createHolds atomic.Int64
 	ops     atomic.Int64 // completed mutating operations (all goroutines)
 	sp      *SchedPlan
 	n   atomic.Int64
@@ -115,6 +124,7 @@ func (s *schedFS) Create(name string, c vfs.DiskWriteCategory) (vfs.File, error)
 		return nil, err
 	}
 	s.after("create", name)
+	s.holdCreate(name)
 	return &schedFile{File: f, s: s, path: name}, nil
 }
 
@@ -156,7 +166,7 @@ func (s *schedFS) Rename(oldname, newname string) error {
 // waitHold lets the foreground yield (bounded) until some background goroutine
 // is parked in a MANIFEST-sync hold. Only shapes the schedule.
 func (s *schedFS) waitHold() bool {
-	if s == nil || s.sp.HoldManifest <= 0 {
+	if s == nil || (s.sp.HoldManifest <= 0 && s.sp.HoldCreate == "") {
 		return false
 	}
 	for i := 0; i < 200000; i++ {
@@ -182,29 +192,60 @@ type schedFile struct {
 // holdManifestSync implements SchedPlan.HoldManifest (called before the sync).
 func (f *schedFile) holdManifestSync() {
 	s := f.s
-	if s.sp.HoldManifest <= 0 || s.stepNow == nil || !s.on.Load() || f.dir || !strings.Contains(f.path, "MANIFEST") {
+	if s.sp.HoldManifest <= 0 || f.dir || !strings.Contains(f.path, "MANIFEST") {
 		return
 	}
-	if curGoroutineIsForeground() {
+	s.hold("manifest sync", s.sp.HoldManifest)
+}
+
+// holdCreate implements SchedPlan.HoldCreate (called after the creation).
+func (s *schedFS) holdCreate(path string) {
+	if s.sp.HoldCreate == "" || s.sp.HoldCreateK <= 0 || strings.HasPrefix(path, "ext/") {
 		return
+	}
+	cls := ""
+	switch {
+	case strings.HasSuffix(path, ".sst"):
+		cls = "sst"
+	case strings.HasSuffix(path, ".blob"):
+		cls = "blob"
+	default:
+		return
+	}
+	if s.sp.HoldCreate != "any" && s.sp.HoldCreate != cls {
+		return
+	}
+	if s.createHolds.Load() >= 8 {
+		return // bounded per case
+	}
+	if s.hold("creation of "+cls+" output", s.sp.HoldCreateK) {
+		s.createHolds.Add(1)
+	}
+}
+
+// hold parks the calling background goroutine until the foreground has
+// executed k further plan steps. Returns false if it does not apply.
+func (s *schedFS) hold(what string, k int) bool {
+	if s.stepNow == nil || !s.on.Load() || curGoroutineIsForeground() {
+		return false
 	}
 	s0 := s.stepNow()
 	s.holds.Add(1)
 	s.holding.Add(1)
 	defer s.holding.Add(-1)
 	if s.trace != nil {
-		s.trace("HOLD manifest sync begins at step %d", s0)
-		defer func() { s.trace("HOLD manifest sync ends at step %d", s.stepNow()) }()
+		s.trace("HOLD %s begins at step %d", what, s0)
+		defer func() { s.trace("HOLD %s ends at step %d", what, s.stepNow()) }()
 	}
 	// Held while the rest of the system makes progress (file-system operations
 	// by other goroutines: the foreground may take a crash image per operation,
 	// which is slow compared to a yield); released after 30000 consecutive
-	// yields without any (the foreground is then waiting for this very edit, or
+	// yields without any (the foreground is then waiting for this very job, or
 	// computing), or after a generous total.
 	last, idle := s.ops.Load(), 0
 	for i := 0; i < 3000000 && s.on.Load(); i++ {
-		if s.stepNow() >= s0+int64(s.sp.HoldManifest) {
-			return
+		if s.stepNow() >= s0+int64(k) {
+			return true
 		}
 		if cur := s.ops.Load(); cur != last {
 			last, idle = cur, 0
@@ -213,10 +254,11 @@ func (f *schedFile) holdManifestSync() {
 				buf := make([]byte, 1<<20)
 				s.trace("HOLD idle exit; goroutines:\n%s", buf[:runtime.Stack(buf, true)])
 			}
-			return
+			return true
 		}
 		runtime.Gosched()
 	}
+	return true
 }
 
 func (f *schedFile) Sync() error {
